@@ -277,7 +277,7 @@ pub fn run(ctx: &Ctx) {
         ctx,
         Pt {
             name: "c12.case",
-            cases: ctx.scale(20_000, 800_000),
+            cases: ctx.scale(300_000, 1_500_000),
             max_len: 700,
             decode: &decode,
             oracle: &oracle,
